@@ -21,6 +21,7 @@ type Sub struct {
 
 type Fact struct {
 	X, Y, Z int64
+	XX      int64 // "F.X" is a proper prefix of its text: assigning F.X concerns nothing that mentions F.XX
 	H       int64 // its text "F.H" is a prefix of the method text "F.Heavy(": assigning it concerns no method atom
 	K       int
 	W       int32
@@ -190,7 +191,7 @@ func (w *World) jsonValue(path ...interface{}) interface{} {
 func (w *World) Snapshot() J {
 	f := w.F
 	s := J{"F.X": f.X, "F.Y": f.Y, "F.Z": f.Z, "F.K": int64(f.K), "F.W": int64(f.W), "F.B": f.B, "F.C": f.C,
-		"F.S": f.S, "F.T": f.T, "F.I": f.I, "F.Once": f.Once, "F.H": f.H}
+		"F.S": f.S, "F.T": f.T, "F.I": f.I, "F.Once": f.Once, "F.H": f.H, "F.XX": f.XX}
 	if f.P != nil {
 		s["F.P.V"] = f.P.V
 		s["F.P.S"] = f.P.S
